@@ -5,6 +5,7 @@ package main
 
 import (
 	"go/ast"
+	"strconv"
 	"go/token"
 	"go/types"
 
@@ -141,4 +142,139 @@ func (c *Ctx) immutableVarInit(pkg *packages.Package, o types.Object) ast.Expr {
 	}
 	c.memo[key] = init
 	return init
+}
+
+// pkgOfTypes: the loaded package with the given types.Package.
+func (c *Ctx) pkgOfTypes(tp *types.Package) *packages.Package {
+	if tp == nil {
+		return nil
+	}
+	for _, p := range c.Pkgs {
+		if p.Types == tp {
+			return p
+		}
+	}
+	return nil
+}
+
+type constTable struct {
+	ints   map[int64]int64  // map with constant integer keys and values
+	fields map[string]int64 // struct with constant integer fields
+	strs   map[int64]string // map with constant integer keys and string values
+	elems  []int64          // array or slice of constant integers (indexed by position or by constant key)
+	isMap  bool
+}
+
+// constTableOf: the contents of a package-level variable that is never written after its initialisation
+// (immutableVarInit) and whose initialiser is a composite literal of constants. nil when it is not such a table.
+func (c *Ctx) constTableOf(o types.Object) *constTable {
+	if o == nil {
+		return nil
+	}
+	key := "constTable:" + o.Pkg().Path() + "." + o.Name()
+	if t, ok := c.memo[key]; ok {
+		ct, _ := t.(*constTable)
+		return ct
+	}
+	c.memo[key] = (*constTable)(nil)
+	pkg := c.pkgOfTypes(o.Pkg())
+	if pkg == nil {
+		return nil
+	}
+	init := c.immutableVarInit(pkg, o)
+	cl, ok := init.(*ast.CompositeLit)
+	if !ok {
+		return nil
+	}
+	info := pkg.TypesInfo
+	t := &constTable{ints: map[int64]int64{}, fields: map[string]int64{}, strs: map[int64]string{}}
+	switch u := o.Type().Underlying().(type) {
+	case *types.Map:
+		t.isMap = true
+		for _, el := range cl.Elts {
+			kv, ok := el.(*ast.KeyValueExpr)
+			if !ok {
+				return nil
+			}
+			k, ok := constInt(info, kv.Key)
+			if !ok {
+				return nil
+			}
+			if v, ok := constInt(info, kv.Value); ok {
+				t.ints[k] = v
+			} else if tv, ok := info.Types[kv.Value]; ok && tv.Value != nil && tv.Value.Kind().String() == "String" {
+				t.strs[k] = constantStringVal(tv)
+			} else {
+				return nil
+			}
+		}
+	case *types.Struct:
+		for i, el := range cl.Elts {
+			name, val := "", el
+			if kv, ok := el.(*ast.KeyValueExpr); ok {
+				if id, ok := kv.Key.(*ast.Ident); ok {
+					name = id.Name
+				}
+				val = kv.Value
+			} else if i < u.NumFields() {
+				name = u.Field(i).Name()
+			}
+			if v, ok := constInt(info, val); ok && name != "" {
+				t.fields[name] = v
+			}
+		}
+		for i := 0; i < u.NumFields(); i++ {
+			if _, ok := t.fields[u.Field(i).Name()]; !ok {
+				if b, ok := u.Field(i).Type().Underlying().(*types.Basic); ok && b.Info()&types.IsInteger != 0 {
+					explicit := false
+					for _, el := range cl.Elts {
+						if kv, ok := el.(*ast.KeyValueExpr); ok {
+							if id, ok := kv.Key.(*ast.Ident); ok && id.Name == u.Field(i).Name() {
+								explicit = true
+							}
+						}
+					}
+					if !explicit {
+						t.fields[u.Field(i).Name()] = 0
+					}
+				}
+			}
+		}
+	case *types.Array, *types.Slice:
+		idx := int64(0)
+		for _, el := range cl.Elts {
+			val := el
+			if kv, ok := el.(*ast.KeyValueExpr); ok {
+				k, ok := constInt(info, kv.Key)
+				if !ok {
+					return nil
+				}
+				idx = k
+				val = kv.Value
+			}
+			v, ok := constInt(info, val)
+			if !ok {
+				return nil
+			}
+			for int64(len(t.elems)) <= idx {
+				t.elems = append(t.elems, 0)
+			}
+			t.elems[idx] = v
+			idx++
+		}
+	default:
+		return nil
+	}
+	c.memo[key] = t
+	return t
+}
+
+func constantStringVal(tv types.TypeAndValue) string {
+	s := tv.Value.ExactString()
+	if len(s) >= 2 && s[0] == '"' {
+		if u, err := strconv.Unquote(s); err == nil {
+			return u
+		}
+	}
+	return s
 }
